@@ -357,9 +357,14 @@ class Program:
         self.nunits = 0
         self.parse_errors = []
         files = sorted(glob.glob(os.path.join(factdir, "*.json")))
+        loaded = []
         for p in files:
             with open(p) as fp:
-                d = json.load(fp)
+                loaded.append(json.load(fp))
+        # fact files are named by a hash of the unit's absolute path: order the units by the path itself, so that the order
+        # in which same-named definitions are met does not depend on where the analysed tree lives
+        loaded.sort(key=lambda d: d.get("unit", ""))
+        for d in loaded:
             u = Unit(d)
             self.units.append(u)
             self.nunits += 1
@@ -413,6 +418,8 @@ class Program:
         nz = [f for f in c if not f.static]
         if len(nz) == 1:
             return nz[0]
+        # extern "C" functions that the C++ library defines again (mpt_meta_new, mpt_node_new, mpt_meta_buffer): the C one
+        c = sorted(nz or c, key=lambda f: (not f.file.startswith("mptcore/"), f.file, f.line))
         return c[0]
 
     def func_in_unit(self, name, unit_suffix):
@@ -447,4 +454,8 @@ class Program:
             c2 = [c for c in cands if c.unit.path == f.unit.path or c.file == f.file]
             if c2:
                 return c2[:1]
+        if len(cands) > 1:
+            # a name defined in more than one library: the definition in the caller's own library, else the core one
+            top = f.file.split("/", 1)[0]
+            cands = sorted(cands, key=lambda c: (c.file.split("/", 1)[0] != top, not c.file.startswith("mptcore/"), c.file, c.line))
         return cands[:1] if cands else []
